@@ -298,7 +298,13 @@ def task_resolve_get_binding():
         policy.interp = interp
         nm = z3.String('name')
         ctx.assume(z3.Length(nm) > 0)
-        ns = make_namespace(ctx, 'ns', NAMESPACE_TAGS, ctx.new_list([]))
+        existing = []
+        if ctx.branch(z3.Bool('namespace_has_a_binding')):
+            eb = ctx.new_obj('inst', bmod.NameBinding, name='existing_binding')
+            ctx.data(eb).fields.update({'_name': z3.String('existing_binding_name'), '_allow_rename': z3.Bool('existing_allow'), '_reserved': None, '_references': ctx.new_list([])})
+            existing.append(eb)
+        ns = make_namespace(ctx, 'ns', NAMESPACE_TAGS, ctx.new_list(list(existing)))
+        ctx.data(ns).fields['tainted'] = False
         interp.natives[pyb.dir] = lambda it, a, k: list(dir(pyb))
         rec = []
 
@@ -332,6 +338,15 @@ def task_resolve_get_binding():
                           detail='continued in %r' % (target,))
             return
         bd = ctx.data(b) if isinstance(b, Obj) else None
+        reflective0 = z3.Or([nm == z3.StringVal(x) for x in ('exec', 'eval', 'locals', 'globals', 'vars')])
+        if isinstance(b, Obj) and b in existing:
+            # found among the bindings of this namespace: when this is the module and the name is a reflective builtin, the binding may be the builtin
+            # itself (eval = eval) or never execute, so the use must freeze the module all the same
+            t0 = nd.fields.get('tainted', False)
+            tz0 = t0 if z3.is_expr(t0) else z3.BoolVal(bool(t0))
+            ctx.check('C09/resolve_names.get_binding/a-module-level-binding-of-a-reflective-builtin-still-taints', z3.Implies(z3.And(is_module, reflective0), tz0), kind='post',
+                      detail='`eval = eval` at module level must not hide eval(...) calls from the freeze')
+            return
         ctx.check(name + '/unresolved-names-are-settled-in-the-module-only', is_module, kind='post')
         ctx.check(name + '/a-new-binding-is-registered-in-the-module', bd is not None and b in ctx.data(nd.fields['bindings']).items, kind='post')
         if bd is None:
@@ -870,7 +885,9 @@ def task_allow_rename():
         ctx.assume(sd.symlen >= 0)
         from pyvc.interp import _keyname
         sd.elem_factory = lambda key: ctx.new_node(tags_of_class(real_ast.stmt), name='stmt_%s' % _keyname(key))
-        interp.natives[compat.iter_child_nodes] = lambda it, a, k: stmts
+        searched = []
+        interp.natives[compat.iter_child_nodes] = lambda it, a, k: (searched.append(('children', a[0])), stmts)[1]
+        interp.natives[compat.walk] = lambda it, a, k: (searched.append(('walk', a[0])), stmts)[1]          # every node of the module (an arbitrary one is analysed)
 
         def literal_eval(it, a, k):
             # ast.literal_eval(node): the python value of a literal display, ValueError as soon as ANY part of it is not a literal
@@ -956,6 +973,9 @@ def task_allow_rename():
                     ctx.check('C10/find__all__/string-elements-of-a-literal-__all__-list-are-collected', z3.Not(z3.And(is_str, tgt_all, vd.tagvar == tag_const('List'))),
                               kind='post', detail='a string element of a list display assigned to __all__ is not collected')
         ctx.check('C10/find__all__/returns-a-list', rd is not None, kind='post')
+        # "a literal __all__ list" may sit in any statement of the module (if sys.version_info >= ...: __all__ += [...]): every node is examined
+        ctx.check('C10/find__all__/every-node-of-the-module-is-examined', searched == [('walk', module)], kind='post',
+                  detail='[needs-witness] the assignments examined come from %r: an __all__ list inside an if / try / with statement is not seen' % (searched,))
     ex3 = Explorer(max_paths=3000)
     ex3.explore(run3)
     r3 = _finish(ex3, 'C10/find__all__', [source.describe(RU + ':find__all__')])
@@ -1329,6 +1349,9 @@ def task_resolve_names():
             ev.append(('recurse', a[0]))
             return None
         interp.hooks[RS + ':resolve_names'] = rec_hook
+        private = z3.Bool('class_uses_private_names')
+        private_asked = []
+        interp.hooks[RU + ':has_private_names'] = lambda it, f, a, k: (private_asked.append(a[0]), private)[1]
         children = ctx.new_obj('list', name='children')
         cd = ctx.data(children)
         cd.items = {}
@@ -1374,7 +1397,7 @@ def task_resolve_names():
                     ctx.check(name + '/every-read-is-attached-to-a-binding', z3.Not(is_load), kind='post', detail='a Name in Load context must be resolved')
                     ctx.check(name + '/a-store-of-a-shared-name-is-attached', z3.Not(used_outside), kind='post')
                 if refs:
-                    stored_in_class = z3.And(z3.Not(is_load), is_store, in_class)
+                    stored_in_class = z3.And(z3.Not(is_load), in_class)         # Store or Del: both make the name local to the class body
                     pinned_local = refs[0][1] in pins
                     pinned_global = any(g[3] in pins and z3.is_expr(g[1]) and g[1].eq(rd.fields.get('id')) for g in global_gets)
                     if not (pinned_local and pinned_global):
@@ -1395,6 +1418,9 @@ def task_resolve_names():
                 if not (pinned_local and pinned_global):
                     ctx.check(name + '/a-name-bound-in-a-class-body-pins-its-binding-and-the-global-of-the-same-name', z3.Not(in_class), kind='post',
                               detail='binder %s: binding pinned: %s, module-level binding of the same name pinned: %s' % (sorted(rd.tags), pinned_local, pinned_global))
+                if rd.tags == {'ClassDef'}:
+                    ctx.check('C04/resolve_names/a-class-that-uses-private-names-is-pinned', z3.BoolVal(private_asked == [root]) if pinned_local else
+                              z3.And(z3.BoolVal(private_asked == [root]), z3.Not(private)), kind='post')
             elif nm is not None:
                 ctx.check(name + '/a-binder-of-a-shared-name-is-attached', z3.Not(used_outside), kind='post')
         elif rd.tags == {'alias'}:
@@ -1492,6 +1518,9 @@ def task_name_binder_visitors():
                         interp.hooks['%s:%s.disallow_rename' % (k.__module__, k.__name__)] = lambda it, f, a, kw: ev.append(('pin', a[0]))
             in_place = z3.Bool('arg_can_be_renamed_in_place')
             interp.hooks[RU + ':arg_rename_in_place'] = lambda it, f, a, k: in_place
+            private = z3.Bool('class_uses_private_names')
+            private_asked = []
+            interp.hooks[RU + ':has_private_names'] = lambda it, f, a, k: (private_asked.append(a[0]), private)[1]
             generic = []
             for k in bn.NameBinder.__mro__:
                 if k.__module__.startswith('python_minifier') and 'generic_visit' in k.__dict__:
@@ -1542,6 +1571,12 @@ def task_name_binder_visitors():
                 ok = bool(g) and (g[0][1] is nm or (z3.is_expr(g[0][1]) and z3.is_expr(nm) and g[0][1].eq(nm)))
                 ctx.check(name + '/attached-under-the-name-it-binds', ok, kind='post', detail='%r vs %r' % (g and g[0][1], nm))
                 ctx.check(name + '/only-binding-occurrences-of-unshared-names-are-attached', z3.And(z3.Not(shared), binds), kind='post')
+                if tags == {'ClassDef'}:
+                    # a class whose body uses __private names keeps its name: the class name is part of their mangled form
+                    pinned = refs[0][1] in [e[1] for e in ev if e[0] == 'pin']
+                    ctx.check('C04/NameBinder.visit_ClassDef/a-class-that-uses-private-names-is-pinned', z3.BoolVal(private_asked == [root]) if pinned else
+                              z3.And(z3.BoolVal(private_asked == [root]), z3.Not(private)), kind='post',
+                              detail='has_private_names asked for %r, binding pinned: %s' % (private_asked, pinned))
                 if tags == {'arg'}:
                     res = refs[0][3].get('reserved')
                     if res is None:
@@ -1602,4 +1637,80 @@ def task_name_binder_visitors():
     for nm, why in undec:
         res['obligations'].append({'name': nm + '/engine', 'status': 'undecided', 'detail': why, 'model': {}, 'time_s': 0, 'backend': 'engine', 'path': None,
                                    'kind': 'engine', 'goal': None})
+    return res
+
+
+def task_has_private_names():
+    """util.has_private_names(classdef): True as soon as ANY node reached by ast.walk(classdef) carries a private name (two leading underscores, not
+    dunder) in one of its identifier slots.  The slots are taken from the running ast: every str-typed field called id / attr / name / arg of every
+    node class (C04: such a class must keep its name, because the mangled attribute names contain it)."""
+    import python_minifier.ast_compat as compat
+    mod = source.import_module(RU)
+    name = 'C04/util.has_private_names'
+    from spec import astlib
+    slots = {}
+    for cname in tag_universe()['names']:
+        cls = tag_universe()['cls'][cname]
+        for f in getattr(cls, '_fields', ()):
+            if f in ('id', 'attr', 'name', 'arg') and astlib.field_type(cname, f)[0] in ('identifier', 'identifier?') if hasattr(astlib, 'field_type') else False:
+                slots.setdefault(cname, []).append(f)
+    if not slots:
+        # slot typing from the class docstrings of the running ast (the same source the heap model uses)
+        import re as _re
+        for cname in tag_universe()['names']:
+            doc = tag_universe()['cls'][cname].__doc__ or ''
+            for m in _re.finditer(r'identifier\??\s+(id|attr|name|arg)\b', doc):
+                slots.setdefault(cname, []).append(m.group(1))
+    results = []
+    fns = [source.describe(RU + ':has_private_names')]
+    if not hasattr(mod, 'has_private_names'):
+        res = result([], fns, [])
+        res['obligations'].append({'name': name + '/engine', 'status': 'undecided', 'detail': 'function has_private_names no longer exists', 'model': {}, 'time_s': 0,
+                                   'backend': 'engine', 'path': None, 'kind': 'engine', 'goal': None})
+        return res
+
+    def make_run(cname, fields):
+        def run(ctx):
+            policy = RenPolicy()
+            interp = Interp(ctx, policy=policy)
+            policy.interp = interp
+            root = ctx.new_node({'ClassDef'}, name='root')
+            walked = ctx.new_obj('list', name='walked')
+            ld = ctx.data(walked)
+            ld.items = {}
+            ld.symlen = z3.Int('n_walked')
+            ctx.assume(ld.symlen >= 0)
+            from pyvc.interp import _keyname
+            ld.elem_factory = lambda key: ctx.new_node({cname}, name='walked_%s' % _keyname(key))
+            calls = []
+            interp.natives[compat.walk] = lambda it, a, k: (calls.append(a[0]), walked)[1]
+            r = interp.call(interp.wrap(mod.has_private_names), [root], {})
+            rz = r if z3.is_expr(r) else z3.BoolVal(bool(r))
+            ctx.check(name + '/walks-the-whole-class', calls == [root], kind='post')
+            private = []
+            for k, e in list(ctx.data(walked).items.items()):
+                if not isinstance(e, Obj):
+                    continue
+                for f in fields:
+                    v = interp.getattr(e, f)
+                    if v is None:
+                        continue
+                    private.append(z3.And(z3.PrefixOf(z3.StringVal('__'), v), z3.Not(z3.SuffixOf(z3.StringVal('__'), v))))
+            if private:
+                ctx.check(name + '/a-private-name-in-an-identifier-slot-is-reported/%s' % cname, z3.Implies(z3.Or(private), rz), kind='post',
+                          detail='an arbitrary node of ast.walk(classdef) of class %s with a private name in %s, result %s' % (cname, '/'.join(fields), r))
+            else:
+                ctx.check(name + '/cover-empty-walk', True, kind='cover')
+        return run
+    res = None
+    for cname in sorted(slots):
+        ex = Explorer(max_paths=400)
+        ex.explore(make_run(cname, slots[cname]))
+        r = _finish(ex, name + '/' + cname, fns if res is None else [])
+        if res is None:
+            res = r
+        else:
+            res['obligations'] += r['obligations']
+            res['notes'] += r['notes']
+    res['notes'].append('identifier slots from the running ast: %s' % ', '.join('%s.%s' % (c, '/'.join(fs)) for c, fs in sorted(slots.items())))
     return res
